@@ -831,6 +831,9 @@ def r24m(ctx: Ctx) -> RuleReport:
     if not rets:
         rep.undecided(f'{fi.fq}: returns the canonical role', fi.loc())
         return rep
+    inline = ctx.repo.maybe_func(M, 'Model._canonicalize_inversion') is None
+    if inline:
+        return _r24m_inline(ctx, rep, fi, rets)
     expanded = [(r, e) for r in rets for e in _expand_all(ctx, fi, r)]
     some_inv = any(find_calls(e, is_inv) for _, e in expanded)
     key = f'{fi.fq}: the table lookup is applied to the inversion-normalised role, as the last step'
@@ -860,6 +863,49 @@ def r24m(ctx: Ctx) -> RuleReport:
             rep.violation(key, fi.loc(r), f'`{src[:110]}` can be returned without inversion normalisation and table lookup')
         else:
             rep.undecided(key, fi.loc(r), src[:110])
+    return _r24m_rest(ctx, rep, fi)
+
+
+def _r24m_inline(ctx: Ctx, rep: RuleReport, fi: FuncInfo, rets) -> RuleReport:
+    """The inversion normalisation written out inside canonicalize_role: `if not self._has_role(role): while True: ... invert twice ... until unchanged`."""
+    loops = [n for n in walk_local(fi.node) if isinstance(n, ast.While)
+             and any(isinstance(c, ast.Call) and norm(single_def(ctx, fi, c.func)).endswith('invert_role') for c in ast.walk(n))]
+    if len(loops) != 1:
+        raise AnalysisError('anchor vanished: function penman.model:Model._canonicalize_inversion (and no inline inversion loop in canonicalize_role)')
+    cfg = CFG(fi.node)
+    head = cfg.node_of(loops[0])
+    guards = [nd.id for nd in cfg.nodes if nd.kind == 'cond' and norm(nd.ast).replace(' ', '') .startswith('self._has_role(')]
+    key = f'{fi.fq}: the table lookup is applied to the inversion-normalised role, as the last step'
+    rp = fi.positional[1] if len(fi.positional) > 1 else 'role'
+    pm = ctx.repo.parent_map(fi.node)
+    for r in rets:
+        v = r.value
+        at = r
+        if isinstance(v, ast.Name):
+            # role = self.normalizations.get(role, role); return role
+            blk = getattr(pm.get(id(r)), 'body', [])
+            if r in blk and blk.index(r) > 0 and isinstance(blk[blk.index(r) - 1], ast.Assign) and norm(blk[blk.index(r) - 1].targets[0]) == v.id:
+                at = blk[blk.index(r) - 1]
+                v = at.value
+        is_tab = isinstance(v, ast.Call) and norm(v.func).endswith('normalizations.get') and len(v.args) == 2 and norm(v.args[0]) == rp and norm(v.args[1]) == rp
+        rn = cfg.node_of(at)
+        skip = cfg.path_avoiding([(cfg.entry, None)], {rn}, lambda nd: nd.id == head or nd.id in guards)
+        after = rn in cfg.reachable_from([head])
+        if is_tab and not skip and after and guards:
+            # the guard may only bypass the loop for a role the model defines (nothing to normalise)
+            byp = [g for g in guards if cfg.path_avoiding([(g, 'F')], {rn}, lambda nd: nd.id == head)]
+            if byp:
+                rep.undecided(key, fi.loc(r), 'a role the model does not define can reach the table lookup without the inversion loop')
+            else:
+                rep.ok(key, fi.loc(r), f'{norm(v)[:60]} after the inline inversion loop')
+        elif not is_tab and after:
+            rep.violation(key, fi.loc(r), f'`{norm(v)[:80]}` is returned after the inversion loop: the normalisation table is not consulted (last)')
+        else:
+            rep.undecided(key, fi.loc(r), norm(v)[:80])
+    return _r24m_rest(ctx, rep, fi, loops[0])
+
+
+def _r24m_rest(ctx: Ctx, rep: RuleReport, fi: FuncInfo, scope=None) -> RuleReport:
     colon = [n for n in walk_local(fi.node) if isinstance(n, ast.BinOp) and isinstance(n.op, ast.Add) and try_fold(n.left) == (True, ':')]
     rep.add(f'{fi.fq}: a missing leading colon is added', fi.loc(), 'ok' if colon else 'undecided')
     # ... exactly for the roles that lack it (the tree's concept marker "/" alone is left as it is): the guard is evaluated on sample spellings
@@ -900,9 +946,10 @@ def r24m(ctx: Ctx) -> RuleReport:
         else:
             rep.ok(key2, fi.loc(c), f'{[f for f, _, _ in conds]}')
     # _canonicalize_inversion: inversions go in pairs
-    ci = ctx.repo.func(M, 'Model._canonicalize_inversion')
+    ci = ctx.repo.maybe_func(M, 'Model._canonicalize_inversion') or fi
+    scope = scope if scope is not None else ci.node
     n_inv = 0
-    for n in walk_local(ci.node):
+    for n in (walk_local(scope) if scope is ci.node else ast.walk(scope)):
         if isinstance(n, ast.Call):
             f = single_def(ctx, ci, n.func)
             if norm(f) in ('self.invert_role', 'invert'):
@@ -912,7 +959,7 @@ def r24m(ctx: Ctx) -> RuleReport:
     # the role is rewritten by invert_role only: any other rewriting (slicing, concatenation) is a different
     # algorithm whose agreement with the double-inversion fixpoint this rule cannot establish
     other = []
-    for n in walk_local(ci.node):
+    for n in (walk_local(scope) if scope is ci.node else ast.walk(scope)):
         if isinstance(n, ast.Assign) and isinstance(n.targets[0], ast.Name):
             val = n.value
             if isinstance(val, (ast.Name, ast.Attribute, ast.Constant)):
